@@ -554,6 +554,8 @@ class Engine:
             cur = st.env.get(node.id)
             if isinstance(cur, Sym) and cur.ref is not None and cur.t is None and not rebind:
                 return self.assign(cur.ref, val, st)              # write through a reference local
+            if not rebind and st.env.get('$alias:' + node.id):
+                raise Unsupported(f'mutation through `{node.id}`, a local that aliases another object (sharing is not modelled)')
             if rebind: st.env['$rebound:' + node.id] = True      # the name no longer denotes the caller's object
             elif ('$param:' + node.id) in st.env and not st.env.get('$rebound:' + node.id):
                 st.env['$param:' + node.id] = val                 # mutation of the caller's object
@@ -619,9 +621,15 @@ class Engine:
             if v.t is TNone and isinstance(t0, ast.Name) and t0.id in self.cur.locals:
                 dt = self.cur.locals[t0.id]
                 if isinstance(dt, TVal) and dt.name in self.w.none_consts: v = Sym(dt, self.w.none_consts[dt.name])     # Optional[value]
+            # `x = obj.attr` / `x = d[k]` / `x = y` binds x to the *same* mutable object: a later mutation through x would change the other one too.
+            # The engine does not model that sharing; it remembers that x is an alias and refuses a mutation through it (see assign).
+            aliasing = isinstance(s.value, (ast.Attribute, ast.Subscript, ast.Name)) and v.t is not None and \
+                (isinstance(v.t, (TSet, TBag, TSeq)) or (isinstance(v.t, TRec) and not is_tuple(v.t)))
             for t in s.targets:
                 if isinstance(t, ast.Tuple): self.bind_target(t, v, st.env)
-                else: self.assign(t, v, st, rebind=isinstance(t, ast.Name))
+                else:
+                    self.assign(t, v, st, rebind=isinstance(t, ast.Name))
+                    if isinstance(t, ast.Name): st.env['$alias:' + t.id] = bool(aliasing)
             return [(st, 'normal')]
         if isinstance(s, ast.AugAssign):
             v = self.ev(ast.BinOp(left=s.target, op=s.op, right=s.value, lineno=s.lineno, col_offset=0), st)
